@@ -319,7 +319,7 @@ func c29Run(ops []c29Op) (V, Verdict) {
 		if dup {
 			wfc = "dup"
 		}
-		verdict.Class = fmt.Sprintf("%s/len%d/writes%d/maxbound%d/unbinds%d", wfc, len(ops)/10*10, min(nWrites, 3), min(maxBound, 3), min(unbinds, 2))
+		verdict.Class = fmt.Sprintf("%s/writes%d/maxbound%d/unbinds%d", wfc, min(nWrites, 2), min(maxBound, 3), min(unbinds, 2))
 	}
 	return VBy(obs), verdict
 }
